@@ -2,9 +2,9 @@
 package c10
 
 import (
-	"reflect"
 	"context"
 	"fmt"
+	"reflect"
 	"testing"
 
 	"github.com/hashicorp/eventlogger"
